@@ -8,7 +8,11 @@ mkdir -p $S
 if [ ! -d $S/repo/.git ] && [ ! -f $S/repo/.git ]; then
   git -C /repo worktree add --detach $S/repo HEAD >/dev/null 2>&1 || { echo "worktree add failed"; exit 2; }
 fi
-git -C $S/repo checkout -q --detach "$(git -C /repo rev-parse HEAD)" && git -C $S/repo checkout -q -- . && git -C $S/repo clean -fdq -e target
+git -C $S/repo revert --abort >/dev/null 2>&1
+git -C $S/repo reset -q --hard || exit 2
+git -C $S/repo clean -fdq -e target
+git -C $S/repo checkout -q --detach "$(git -C /repo rev-parse HEAD)" || { echo "cannot check out /repo HEAD in scratch"; exit 2; }
+[ "$(git -C $S/repo rev-parse HEAD)" = "$(git -C /repo rev-parse HEAD)" ] || { echo "scratch repo not at /repo HEAD"; exit 2; }
 case "$1" in
   --none) shift ;;
   --revert) git -C $S/repo revert --no-commit "$2" || exit 2; shift 2 ;;
